@@ -52,14 +52,29 @@ def r_lookup(ctx, rid):
     rets = [S(r) for k, p, r in explore(ctx, g) if k == 'RET']
     ctx.ob(rid, 'scope-get', rets == ['translate(from(get_input_pattern(self)), self.ctx, target)'], 'Scope::get translates the current input pattern to the target', g.where(), str(rets))
     gi = ctx.anchor(fx, 'compile::Scope::get_input_pattern')
-    rets = [S(r) for k, p, r in explore(ctx, gi) if k == 'RET']
-    IT = 'flat_map(iter(self.variables), {closure#0}{})'
-    ctx.ob(rid, 'input-pattern:fold', rets == ['fold(cloned(%s), expect(next(%s), "Empty stack"), {closure#1}{})' % (IT, IT)], 'input pattern = it.fold(first, closure) over all patterns of all scopes in stack order', gi.where(), str(rets))
-    c0 = ctx.anchor(fx, 'compile::Scope::get_input_pattern::{closure#0}')
-    rets = [S(r) for k, p, r in explore(ctx, c0) if k == 'RET']
-    ctx.ob(rid, 'input-pattern:scope-order', rets == ['iter(scope)'], 'each scope contributes its patterns in insertion order', c0.where(), str(rets))
-    c1 = ctx.anchor(fx, 'compile::Scope::get_input_pattern::{closure#1}')
+    raw = [strip(r) for k, p, r in explore(ctx, gi) if k == 'RET']
+    # accepted idioms for "all patterns of all scopes in stack order": variables.iter().flat_map(|s| s.iter()) or .flatten()
+    ok_fold, flat_clo, fold_clo, IT = False, None, None, None
+    if len(raw) == 1 and is_call(raw[0]) and raw[0][1].endswith('::fold') and len(raw[0][2]) == 3:
+        src, init, clo = raw[0][2]
+        if is_call(src) and src[1].endswith('::cloned'):
+            IT = src[2][0]
+            inner = S(IT)
+            if is_call(IT) and IT[1].endswith('::flat_map') and S(IT[2][0]) == 'iter(self.variables)' and IT[2][1][0] == 'agg' and IT[2][1][1].startswith('closure:'):
+                flat_clo = IT[2][1][1][len('closure:'):]
+            ok_it = inner == 'flatten(iter(self.variables))' or flat_clo is not None
+            ok_fold = ok_it and S(init) == 'expect(next(%s), "Empty stack")' % inner and clo[0] == 'agg' and clo[1].startswith('closure:')
+            if ok_fold:
+                fold_clo = clo[1][len('closure:'):]
+    ctx.ob(rid, 'input-pattern:fold', ok_fold, 'input pattern = it.fold(first, closure) over all patterns of all scopes in stack order (flat_map(|s| s.iter()) or flatten())', gi.where(), str([S(r) for r in raw]))
+    if flat_clo is not None:
+        c0 = ctx.anchor(fx, flat_clo)
+        rets = [S(r) for k, p, r in explore(ctx, c0) if k == 'RET']
+        ctx.ob(rid, 'input-pattern:scope-order', rets == ['iter(%s)' % c0.names.get(2, 'scope')], 'each scope contributes its patterns in insertion order', c0.where(), str(rets))
+    else:
+        ctx.ob(rid, 'input-pattern:scope-order', ok_fold, 'each scope contributes its patterns in insertion order (Iterator::flatten over &Vec)', gi.where())
     ok = False
+    c1 = ctx.anchor(fx, fold_clo or 'compile::Scope::get_input_pattern::{closure#1}')
     for k, p, r in explore(ctx, c1):
         if k == 'RET':
             r = strip(r)
